@@ -1,4 +1,4 @@
-\* Strain.tla, quick tier: 6 references x 22 stretches x 8 rotations = 1056 cases, 14923 states (exhaustive)
+\* Strain.tla, machine Spec, quick tier: 6 references x 22 stretches x 8 rotations = 1056 cases, 14923 states (exhaustive)
 SPECIFICATION Spec
 CONSTANTS
   REFS <- RefsQ
@@ -7,6 +7,15 @@ CONSTANTS
   OBJROTS <- ObjRots
   OBJU0 <- ObjU0
   OBJU0R <- ObjU0R
+  HKINDS <- HKindsAll
+  HREFS <- HRefsQ
+  HSTRETCHES <- HStretchQ
+  HROTS <- HRotsQ
+  HU0R <- HU0RAll
+  HLEN = 2
+  PHASEDICTS <- PhaseDicts
+  NVER = 2
+  MLEN = 2
 INVARIANT RefLatticeOK
 INVARIANT PolarOK
 INVARIANT RefIsSethHill
